@@ -46,7 +46,7 @@ func (c12) Budget(tier string) int {
 	if tier == "thorough" {
 		return 5000000
 	}
-	return 30000
+	return 200000
 }
 
 // ---------------------------------------------------------------------------
